@@ -156,6 +156,16 @@ def kwnames(func, args=1, kwargs=2, ignore=3):
     return ("kwnames", [("func", _c(func)), ("args", _c(args)), ("kwargs", _c(kwargs)), ("ignore", _c(ignore))])
 
 
+REC = None      # the sessions put the cached wrapper of `rec` here: memoised recursion re-enters the same MemorizedFunc
+
+
+def rec(a, b=0):
+    if b == 0:
+        COUNT["rec"] += 1
+    inner = (REC or rec)(a, b + 1) if b < 2 else None
+    return ("rec", [("a", _c(a)), ("b", b)], inner)
+
+
 async def acoro(a, b=5):
     COUNT["acoro"] += 1
     return ("acoro", [("a", _c(a)), ("b", _c(b))])
@@ -241,12 +251,12 @@ def gen_call(rng, fn, pool):
 def gen_history(rng, n_ops=14):
     funcs = gen_universe(rng, rng.choice([1, 2, 3]))
     pool = rng.sample(range(len(VALUES)), rng.randint(2, 5))
-    specials = ["meth1", "meth2", "part", "acoro", "part", "part2", "part3", "nestbase", "nested", "kwnames"]
+    specials = ["meth1", "meth2", "part", "acoro", "part", "part2", "part3", "nestbase", "nested", "kwnames", "rec", "rec"]
     p_special = 0.12
     if rng.random() < 0.12:
         # histories about callables that share one place in the store (partials; the two bound methods)
         p_special = 0.8; specials = rng.choice([["part", "part2", "part3"], ["part", "part2"], ["meth1", "meth2", "part", "part3"],
-                                               ["nested", "nestbase"], ["nested", "nestbase", "meth1"]])
+                                               ["nested", "nestbase"], ["nested", "nestbase", "meth1"], ["rec"], ["rec", "kwnames"]])
         pool = pool[:2]
     ops = []
     calls = []
@@ -257,6 +267,8 @@ def gen_history(rng, n_ops=14):
                 sp = rng.choice(specials)
                 c = {"fn": sp, "args": [rng.randrange(len(pool))] + ([rng.randrange(len(pool))] if rng.random() < 0.4 else []),
                      "kwargs": {}}
+                if sp == "rec":
+                    c["args"] = [rng.randrange(len(pool))]; c["kwargs"] = {}
                 if sp == "kwnames":
                     c["args"] = [rng.randrange(len(pool))] if rng.random() < 0.4 else []
                     c["kwargs"] = {n_: rng.randrange(len(pool)) for n_ in (["func"] if not c["args"] else []) + rng.sample(["args", "kwargs", "ignore"], rng.randint(0, 2))}
@@ -435,6 +447,7 @@ def session(root, hist, start, t0, compress):
             tab[(name, loc)] = mems[loc].cache(resolve_target(umod, name), ignore=ignore.get(name) or None,
                                               cache_validation_callback=expires_after(seconds=100) if cb else None)
         return tab[(name, loc)]
+    umod.REC = lambda *a_, **k_: get("rec")(*a_, **k_)
     vals = _values(hist["pool"])
     obs = []
     i = start
